@@ -21,16 +21,16 @@ package dns
 //@   requires len(b) >= 2
 //@   ensures b[0] == v / 256 && b[1] == v % 256
 //@   ensures onlywrites(b, 0, 2)
-//@   modifies A.uint8.v
+//@   writes b
 //@ extern (encoding/binary.bigEndian).PutUint32
 //@   requires len(b) >= 4
 //@   ensures b[0] == v / 16777216 && b[1] == (v / 65536) % 256 && b[2] == (v / 256) % 256 && b[3] == v % 256
 //@   ensures onlywrites(b, 0, 4)
-//@   modifies A.uint8.v
+//@   writes b
 //@ extern (encoding/binary.bigEndian).PutUint64
 //@   requires len(b) >= 8
 //@   ensures onlywrites(b, 0, 8)
-//@   modifies A.uint8.v
+//@   writes b
 
 //@ extern fmt.Errorf
 //@   ensures ret0 != nil
@@ -74,3 +74,31 @@ package dns
 //@   pure
 //@ extern time.Now
 //@   pure
+
+// encoding/base64, base32, hex: only length facts are used.  Decode requires len(dst) >= DecodedLen(len(src))
+// (the callers size dst with DecodedLen; that call-site fact is not re-checked here).
+//@ extern (*encoding/base64.Encoding).DecodedLen
+//@   ensures n >= 0 ==> 0 <= ret0 && ret0 <= n
+//@   pure
+//@ extern (*encoding/base64.Encoding).Decode
+//@   ensures 0 <= n && n <= len(dst) && onlywrites(dst, 0, len(dst))
+//@   writes dst
+//@ extern (*encoding/base64.Encoding).EncodeToString
+//@   pure
+//@ extern (*encoding/base32.Encoding).DecodedLen
+//@   ensures n >= 0 ==> 0 <= ret0 && ret0 <= n
+//@   pure
+//@ extern (*encoding/base32.Encoding).Decode
+//@   ensures 0 <= n && n <= len(dst) && onlywrites(dst, 0, len(dst))
+//@   writes dst
+//@ extern (*encoding/base32.Encoding).EncodeToString
+//@   pure
+//@ extern encoding/hex.DecodedLen
+//@   ensures x >= 0 ==> ret0 == x / 2
+//@   pure
+//@ extern encoding/hex.EncodeToString
+//@   ensures len(ret0) == 2 * len(src)
+//@   pure
+//@ extern encoding/hex.DecodeString
+//@   ensures ret1 == nil ==> len(ret0) == len(s) / 2
+//@   fresh
